@@ -106,3 +106,18 @@ claim("C03", "proof",
       "Engine writers (Euler Compute_dxdt, tau-leap Apply_nevt, Gillespie ApplyReaction/ApplyDiffusion) are not yet under "
       "contract in this check. Structure enumerated. A1.",
       "deductive: symbolic execution of real source + SMT; modular (callee contracts)", "DESIGN.md 3/C03")
+claim("C11", "proof",
+      "The C++ engine of the working tree is read through clang's typed AST and interpreted symbolically. Run-time-error "
+      "obligations are generated (not written) at every vector/buffer subscript, integer division/modulo, delete, read of an "
+      "uninitialised scalar and library precondition (poisson mean > 0, normal stddev > 0), and discharged for: Init of the six "
+      "algorithm classes from the ABI precondition (establishing the class invariant, incl. quantified invariants of the ragged "
+      "graph tables), Iterate and Sample of the six classes from an arbitrary object satisfying the class invariant (all helpers "
+      "inlined), the transposition/MkVec/GenerateStochasticDistribution functions and the exported API with the typestate "
+      "invariant of the globals. Loops are cut by invariants (automatic counter bounds + sidecar content invariants; entry-wise "
+      "invariants are checked at every store and instantiated at every read). Counter-examples are replayed on the real engine "
+      "built with ASan+UBSan+_GLIBCXX_ASSERTIONS (scenario battery, also run as a bounded stand-in on every run).",
+      "A1/A9: int arithmetic mathematical (no overflow obligations), doubles real; libstdc++ replaced by contracts; ABI precondition "
+      "of Init assumed here (established by the Python seam); for the exact stochastic engine the index safety of ApplyDiffusion "
+      "relies on the state being a vector of non-negative integers (integrality itself is C07's obligation). Known finding: the "
+      "redistribution of sub-molecule totals does not terminate (hang, listed in known_findings.txt).",
+      "deductive: symbolic interpretation of clang AST with loop invariants + SMT; sanitizer replay battery", "DESIGN.md 3/C11")
